@@ -45,6 +45,8 @@ type Obligation struct {
 // Ctx is the per-function-unit verification context. Declarations are shared
 // by all paths (append-only).
 type Ctx struct {
+	modsCall *ast.CallExpr // call site whose contract modifies are being collected (loop mod sets)
+	modsInfo *types.Info
 	eng      *Engine
 	unit     *FuncUnit
 	pkg      *packages.Package
@@ -53,6 +55,7 @@ type Ctx struct {
 	seen     map[string]bool
 	nfr      int
 	obls     []*Obligation
+	anteCov  []*Obligation     // reachability covers for the antecedents of `ensures A ==> B` clauses
 	lits     map[string]string // string literal -> const
 	litOrder []string
 	notes    map[string]bool
@@ -370,7 +373,7 @@ func (c *Ctx) addObl(st *State, kind, name, goal, desc string) {
 	}
 	if c.unit.Contract != nil && c.unit.Contract.Flags["no-safety"] {
 		switch kind {
-		case "nil", "nilcall", "bounds", "mapwrite", "make", "div", "conv", "typeassert", "panic":
+		case "nil", "nilcall", "bounds", "mapwrite", "make", "div", "conv", "typeassert", "panic", "lock":
 			c.note("flag no-safety: run-time safety obligations of this unit are not generated (only its contract clauses)")
 			return
 		}
@@ -379,6 +382,14 @@ func (c *Ctx) addObl(st *State, kind, name, goal, desc string) {
 	o := &Obligation{Name: full, Kind: kind, Func: c.funcKey, PC: append([]string(nil), st.pc...), Goal: goal, Desc: desc, PathNo: c.paths, Taint: append([]string(nil), st.taint...)}
 	if c.unit.Contract != nil {
 		o.Props = c.unit.Contract.Props
+		if len(c.unit.Contract.SafetyProps) > 0 {
+			switch kind {
+			case "nil", "nilcall", "bounds", "mapwrite", "make", "div", "conv", "typeassert", "panic":
+				o.Props = c.unit.Contract.SafetyProps
+			case "lock":
+				// a leaked lock wedges every later user of the mutex: it counts for every property of the unit
+			}
+		}
 	}
 	c.obls = append(c.obls, o)
 }
